@@ -1,6 +1,7 @@
 """Checks decided by the vssmon / canmon engines: C06 C07 C08 C09 C10."""
 import os, time
 import vlib
+import vfuzz
 from vlib import VERIF
 
 ASSUME = [
@@ -68,6 +69,18 @@ def config_variants(obs, work, base, sources, jobs, seed, variants=('ilp32', 'nd
         vlib.run_variant(obs, b, [dict(j, VP_CANARY=1, VP_NULLEMPTY=1) for j in jobs], seed, v)
 
 
+def guided(obs, work, what, tier, seed):
+    """Coverage-guided stage (clang libFuzzer + ASan/UBSan): the case functions and oracles of the monitor with its generator fed
+    from the fuzz input (mon/fuzz_vss.c, mon/fuzz_can.c)."""
+    quick = dict(can=150000, encode=20000, decode=12000, pad=100000, strarr=4000)[what]
+    runs = quick if tier == 'quick' else quick * 60
+    if what == 'can':
+        n = vfuzz.stage(obs, work, vfuzz.can_target(work), 'can', {}, runs, 8 if tier == 'quick' else 16, seed, max_len=400)
+    else:
+        n = vfuzz.stage(obs, work, vfuzz.vss_target(work), 'vss-' + what, dict(VP_FUZZ_OPS=what), runs, 8 if tier == 'quick' else 16, seed, max_len=1024)
+    return '  Coverage-guided stage (libFuzzer, %s): %d executions with inputs derived from the comparisons the library executes.' % (what, n or 0)
+
+
 def ilp32_variant(obs, work, mode, cases, seed, places=(0, 3)):
     nt0 = obs.stats.get('nontrivial', 0)
     config_variants(obs, work, 'vssmon', vss_sources(),
@@ -114,6 +127,7 @@ def c06(tier, seed):
         jobs = [dict(VP_SEED=int(seed) * 100 + i, VP_REPS=R, VP_PLACE=i % 8) for i in range(nseeds)]
         vlib.run_parallel(lambda e: vlib.run_monitor(obs, b, e, tag='can'), jobs)
         config_variants(obs, work, 'canmon', can_sources(), [dict(VP_SEED=int(seed) + 77, VP_REPS=2, VP_PLACE=pl) for pl in (0, 2)], seed)
+        gnote = guided(obs, work, 'can', tier, seed)
         cov = dict(distinct_nontrivial=int(obs.stats.get('nontrivial', 0)) // nseeds,
                    long_lengths_observed=int(obs.stats.get('can.long_lengths_observed', 0)),
                    long_lengths_model_mismatch=int(obs.stats.get('can.long_lengths_model_mismatch', 0)),
@@ -122,7 +136,7 @@ def c06(tier, seed):
                         '2^29-1, ids >= 2^29, ...) + %d random ids x payload classes x 2 placements (16 KiB random arena at byte offsets 0..7: everything outside the padded '
                         'message must be unchanged; exact-extent heap message and source under ASan), %d seeds; return value, payload '
                         'length read-back and payload pointer checked.  Lengths 65..2028 are observed and counted only (outside the '
-                        'statement).  Non-trivial: distinct (length, builder, variant, identifier class) cells.' % (R, nseeds),
+                        'statement).  Non-trivial: distinct (length, builder, variant, identifier class) cells.' % (R, nseeds) + gnote,
                    exhaustive=True)
         return vlib.finish('C06', 'exploration', tier, seed, obs, cov, ASSUME[1:3] + [
             'builder model: hdr || payload || 0^pad, len=(H+L+pad)/4, pad=(4-L%4)%4, id mod 2^29, eff=(id>0x7FF) judged for ids < 2^29 only, fdf=variant'],
@@ -142,6 +156,7 @@ def c07(tier, seed):
         # an unoptimised (Debug-style) build of the same sources: conversions the optimiser folds away exist only there
         run_split(obs, build_vssmon(work, 'plain'), 'encode', N // 4, int(seed) + 1, nproc=8, extra=dict(VP_CANARY=1))
         ilp32_variant(obs, work, 'encode', 1500 if tier == 'quick' else 4000, seed, places=(0, 3) if tier == 'quick' else (0, 1, 3, 6))
+        gnote = guided(obs, work, 'encode', tier, seed)
         cov = dict(distinct_nontrivial=int(obs.stats.get('nontrivial', 0)),
                    rule='%d generated messages: address mode 0..3 x all 256 datatype codes (24 defined, reserved ones revisited less '
                         'often) x static ids {0,1,2^32-1,...} / interop paths of length classes {0..15 by residue, 255, 256, 257, '
@@ -149,7 +164,7 @@ def c07(tier, seed):
                         'infinities; strings/arrays of length classes 0,1,2,3,13,255..257, random, maximum whole-element count); header '
                         'fields, SetVssPath and SetVssData each followed by a whole-arena comparison with the reference encoding; a quarter of the '
                         'corpus again in an unoptimised gcc -O0 build and a few thousand messages in freestanding 32-bit (ILP32), -DNDEBUG, -funsigned-char and clang MemorySanitizer builds.  '
-                        'Non-trivial: a value of non-zero encoded size was written and matched, or a reserved mode wrote nothing.' % N)
+                        'Non-trivial: a value of non-zero encoded size was written and matched, or a reserved mode wrote nothing.' % N + gnote)
         return vlib.finish('C07', 'exploration', tier, seed, obs, cov, ASSUME, t0, min_evals=20000)
     finally:
         work.cleanup()
@@ -168,6 +183,7 @@ def c08(tier, seed):
         ilp32_variant(obs, work, 'decode', 1500 if tier == 'quick' else 4000, seed, places=(0, 5) if tier == 'quick' else (0, 1, 5, 6))
         if tier == 'thorough':
             memcheck(obs, work, 'decode', 1500, seed)
+        gnote = guided(obs, work, 'decode', tier, seed)
         cov = dict(distinct_nontrivial=int(obs.stats.get('nontrivial', 0)),
                    rule='%d well-formed messages from the reference encoder (24 datatypes x 2 address modes x path/value classes of '
                         'C07) decoded from an exact-extent heap block (over-reads trap) and from the arena at several byte offsets '
@@ -175,7 +191,7 @@ def c08(tier, seed):
                         'values bit-exact, two-call protocol for the 13 variable-length types (length query writes only the length, '
                         'copy phase writes exactly the reported bytes into an exact-extent destination, elements bit-exact).  Result '
                         'objects live in an arena and are compared with a typed model.  An eighth of the corpus again in a gcc -O0 build, '
-                        'a few thousand messages in freestanding 32-bit (ILP32), -DNDEBUG, -funsigned-char and clang MemorySanitizer builds.  Each message counts once as non-trivial.' % N)
+                        'a few thousand messages in freestanding 32-bit (ILP32), -DNDEBUG, -funsigned-char and clang MemorySanitizer builds.  Each message counts once as non-trivial.' % N + gnote)
         return vlib.finish('C08', 'exploration', tier, seed, obs, cov, ASSUME, t0, min_evals=20000)
     finally:
         work.cleanup()
@@ -193,13 +209,14 @@ def c09(tier, seed):
         nt0 = int(obs.stats.get('nontrivial', 0))
         ilp32_variant(obs, work, 'pad', 3, seed, places=(0, 1) if tier == 'quick' else (0, 1, 2, 3))
         obs.stats['nontrivial'] = nt0
+        gnote = guided(obs, work, 'pad', tier, seed)
         cov = dict(distinct_nontrivial=int(obs.stats.get('nontrivial', 0)) // len(jobs), exhaustive=True,
                    rule='exhaustive message length 12..2044 x prior contents {all 0xFF, zero body + 0xFF tail, %d random} x %d '
                         '(seed, byte offset) runs: after Avtp_Vss_Pad the 200 KiB arena must equal the model (length field = '
                         'ceil(n/4), pad field = (4-n%%4)%%4, bytes [n, n+pad) zero, nothing else); every length also in a buffer of exactly the padded size in front of an inaccessible page and, under ASan, in an exact-size heap block (nothing behind the pad bytes may be touched, not even rewritten with the same value); all 512 length values through the '
                         'dedicated setter/getter vs the generic accessors on 3 backgrounds.  distinct_nontrivial = distinct lengths + '
                         'distinct length-field values.  '
-                        'The same sweep (3 backgrounds, 2-4 offsets) in freestanding 32-bit (ILP32), -DNDEBUG, -funsigned-char and clang MemorySanitizer builds.' % (R - 2, len(jobs)))
+                        'The same sweep (3 backgrounds, 2-4 offsets) in freestanding 32-bit (ILP32), -DNDEBUG, -funsigned-char and clang MemorySanitizer builds.' % (R - 2, len(jobs)) + gnote)
         return vlib.finish('C09', 'exploration', tier, seed, obs, cov, ASSUME[1:3], t0, min_evals=10000)
     finally:
         work.cleanup()
@@ -216,13 +233,14 @@ def c10(tier, seed):
         ilp32_variant(obs, work, 'strarr', 150 if tier == 'quick' else 400, seed, places=(0, 1))
         if tier == 'thorough':
             memcheck(obs, work, 'strarr', 300, seed)
+        gnote = guided(obs, work, 'strarr', tier, seed)
         cov = dict(distinct_nontrivial=int(obs.stats.get('nontrivial', 0)),
                    rule='%d string lists: counts {0, 1, 3, 255, 256, 257..656, random < 3200, small}, length profiles {0..2, 0..299, '
                         'empty last string, one string filling 65535 bytes, 0..19}; packed by the library into an exact-extent block '
                         'and compared with the reference concatenation; counted; unpacked from an exact-extent copy of the reference '
                         'packing with requested counts {0, n-1, n, n+1, n+7, n+8} in lengths-only and copy phases (exact-extent '
                         'destinations); string objects and the pointer array live in an arena (objects beyond the packed count must '
-                        'stay untouched); a few hundred lists in freestanding 32-bit (ILP32), -DNDEBUG, -funsigned-char and clang MemorySanitizer builds.  Each list counts once as non-trivial.' % N)
+                        'stay untouched); a few hundred lists in freestanding 32-bit (ILP32), -DNDEBUG, -funsigned-char and clang MemorySanitizer builds.  Each list counts once as non-trivial.' % N + gnote)
         return vlib.finish('C10', 'exploration', tier, seed, obs, cov, ASSUME, t0, min_evals=20000)
     finally:
         work.cleanup()
